@@ -239,6 +239,32 @@ def run(ctx):
             fails.append({"case": {"tree": t, "exotic_values": True}, "what": f"the copy differs from the original in a field holding a non-string key or value: {bad}"[:400]})
         elif shape(root) != before_shape:
             fails.append({"case": {"tree": t, "exotic_values": True}, "what": "copy() changed the original"})
+    # wide and deep shapes: a node with several hundred children (an attributeList), siblings hanging off the LAST child of wide
+    # levels, a chain a few hundred levels deep - copy() is the same function of the tree at every size
+    def wide(nk, levels):
+        t_ = impl.T("attributeList", None, [impl.T("attribute", str(i)) for i in range(nk)])
+        cur = t_
+        for _ in range(levels - 1):
+            nxt = impl.T("attributeList", None, [impl.T("attribute", str(i)) for i in range(nk)])
+            cur[8][-1][8].append(nxt)
+            cur = nxt
+        return t_
+    def chain(depth):
+        t_ = impl.T("para", "x")
+        for _ in range(depth):
+            t_ = impl.T("section", None, [t_])
+        return t_
+    for shape_name, t in [("300 children", wide(300, 1)), ("3 levels of 100 siblings", wide(100, 3)), ("257 children", wide(257, 1)), ("chain of depth 300", chain(300))]:
+        impl.reset()
+        root = impl.build(t)
+        nedits += 1
+        try:
+            cp = root.copy()
+        except Exception as e:
+            fails.append({"case": {"shape": shape_name}, "what": f"copy() of a tree with {shape_name} raised {type(e).__name__}: {e}"[:300]})
+            continue
+        if value(cp) != value(root):
+            fails.append({"case": {"shape": shape_name}, "what": f"the copy of a tree with {shape_name} differs from the original"})
     # copy, edit the copy's namespace map IN PLACE (re-bind an existing prefix, as fix_nsmap does), copy the original again:
     # the second copy still equals the original (no state survives between copies)
     for i in range(40 if ctx.tier == "quick" else 400):
